@@ -38,7 +38,9 @@ Inductive ccmd2 :=
 | KSet (k : key) (v : val) (ttl : Z) (ex : option bool) | KSetMany (kvs : list (key * val)) (ttl : Z)
 | KIncr (k : key) (by_ : Z) (ttl : Z)
 | KDel (k : key) | KDelMany (ks : list key) | KDelMatch (pat : string)
-| KExpire (k : key) (ttl : Z) | KClear.
+| KExpire (k : key) (ttl : Z) | KClear
+| KSetLock (k : key) (tok : Z) (ttl : Z)      (* set_lock with an integer token: on the server and (when accepted) locally the same as set(k, tok, ttl, exist=False) *)
+| KUnlock (k : key) (tok : Z).                (* unlock: the server deletes the key iff it holds the token; the local copy is dropped iff it holds the token *)
 Inductive event := Cmd (i : nat) (c : ccmd2) | Tick (dt : Z) | Deliver | Drop (i : nat).
 
 Definition MARK_TTL := 5000.
@@ -132,6 +134,28 @@ Definition cmd_step (g : cfg) (i : nat) (c : ccmd2) : cfg * bres :=
   | KClear =>
       let '(s', r) := up_step true U s t CClear in
       ({| srv := s'; now := t; clients := broadcast (cupd (clients g) i (with_local cl (fun _ => None))) [MFlush]; nclients := nclients g |}, r)
+  | KSetLock k tok ttl =>
+      let '(s', r) := up_step true U s t (CSet k (VInt tok) ttl (Some false)) in
+      match r with
+      | BBool true =>
+          let cl' := {| local := lwrite cl t k (LV (VInt tok)) ttl; marks := kupd (marks cl) k (Some (t + MARK_TTL));
+                        started := started cl; queue := queue cl; reconnect := reconnect cl |} in
+          ({| srv := s'; now := t; clients := broadcast (cupd (clients g) i cl') [MKey k]; nclients := nclients g |}, r)
+      | _ => ({| srv := s'; now := t; clients := cupd (clients g) i (with_marks cl (kupd (marks cl) k None)); nclients := nclients g |}, r)
+      end
+  | KUnlock k tok =>
+      let cl' := match llook cl t k with
+                 | Some (LV (VInt z), _) => if z =? tok then with_local cl (kupd (local cl) k None) else cl
+                 | _ => cl
+                 end in
+      match snd (up_step true U s t (CGet k)) with
+      | BVal (Some (VInt z)) =>
+          if z =? tok
+          then let '(s', _) := up_step true U s t (CDel k) in
+               ({| srv := s'; now := t; clients := broadcast (cupd (clients g) i cl') (map MKey (live_keys s t [k])); nclients := nclients g |}, BBool true)
+          else ({| srv := s; now := t; clients := cupd (clients g) i cl'; nclients := nclients g |}, BBool false)
+      | _ => ({| srv := s; now := t; clients := cupd (clients g) i cl'; nclients := nclients g |}, BBool false)
+      end
   end.
 
 (* the invalidation loop on one message (client_side.py:151-164) *)
